@@ -263,6 +263,16 @@ func (e *KnowledgeBase) AddRuleEntry(entry *RuleEntry) error {
 	return nil
 }
 
+// DiscardRuleEntry takes the given rule entry out of this knowledge base again, if it is the one stored
+// under its name. Used by the builder to undo the additions of a resource that turned out to be rejected.
+func (e *KnowledgeBase) DiscardRuleEntry(entry *RuleEntry) {
+	e.lock.Lock()
+	defer e.lock.Unlock()
+	if current, ok := e.RuleEntries[entry.RuleName]; ok && current == entry {
+		delete(e.RuleEntries, entry.RuleName)
+	}
+}
+
 // ContainsRuleEntry will check if a rule with such name is already exist in this knowledge base.
 func (e *KnowledgeBase) ContainsRuleEntry(name string) bool {
 	_, ok := e.RuleEntries[name]
